@@ -28,7 +28,8 @@ PROPS["C05"] = {
     "tie_modules": ["LispModel.Tie.SyntaxReader"],
     "engines": [{"name": "scan", "quick": 20000, "thorough": 300000},
                 {"name": "read", "quick": 20000, "thorough": 300000},
-                {"name": "rwp", "quick": 15000, "thorough": 200000}],
+                {"name": "rwp", "quick": 15000, "thorough": 200000},
+                {"name": "readconc", "quick": 1, "thorough": 1, "deterministic": True}],
     "violation_if": {"read": r"^(PANIC|HANG)", "rwp": r"^(PANIC|HANG)", "scan": r"^(PANIC|HANG)"},
     "technique": "Lean 4 totality + panic-freedom theorems about the scanner/reader model + differential correspondence on byte strings",
     "level_text": "The scanner, reader and preamble reader are total Lean functions (termination checked by the kernel = no hang in the model); "
@@ -67,7 +68,8 @@ PROPS["C16"] = {
     "lean_module": "LispModel.Props.C16",
     "tie_modules": ["LispModel.Tie.SyntaxReader"],
     "engines": [{"name": "cut", "quick": 2500, "thorough": 40000},
-                {"name": "replloop", "quick": 1200, "thorough": 20000}],
+                {"name": "replloop", "quick": 1200, "thorough": 20000},
+                {"name": "cutbig", "quick": 1, "thorough": 1, "deterministic": True}],
     "technique": "Lean 4 theorems about the reader on token prefixes + differential correspondence on cut/extended expressions incl. the REPL's multiLine verdict",
     "level_text": "Theorems over token sequences (incomplete prefix reports the innermost closer; complete expressions are never reported incomplete; surplus "
                   "closers and second expressions are rejected with a different class); tie: every well-formed generated expression cut after every token and "
@@ -128,7 +130,7 @@ PROPS["C07"] = {
     "violation_if": {"cancel": r"^HANG"},
     "lean_module": "LispModel.Props.C07",
     "engines": [{"name": "cancel", "quick": 2500, "thorough": 40000},
-                {"name": "cancelwall", "quick": 90, "thorough": 600}],
+                {"name": "cancelwall", "quick": 93, "thorough": 620}],
     "technique": "Lean 4 theorems about the poll structure of the evaluator model (every loop iteration polls first) + poll-counting context correspondence",
     "level_text": "PARTIAL: the logic is proved in poll ticks (after the cancelling poll every evaluation step returns the timeout error at once, no effect "
                   "is appended, the number of further polls is bounded by the try nesting); the tie runs real EVAL under a context whose Done() closes at the "
@@ -296,7 +298,8 @@ PROPS["C17"] = {
 PROPS["C19"] = {
     "lean_module": "LispModel.Props.C19",
     "engines": [{"name": "routes", "quick": 2500, "thorough": 40000},
-                {"name": "lnot", "quick": 3000, "thorough": 60000}],
+                {"name": "lnot", "quick": 3000, "thorough": 60000},
+                {"name": "reload", "quick": 1, "thorough": 1, "deterministic": True}],
     "technique": "Lean 4 theorems (evaluation commutes with every cursor map, layout gaps are invisible to the scanner, do creates no scope, load-file wrapper) + differential run of one program over seven delivery routes and random layouts",
     "level_text": "Theorems: the whole evaluator block commutes with erasing (or changing) source positions — values, payloads, effects and store are equal, only "
                   "error positions differ; whitespace and comments between tokens do not change the token sequence; `do` evaluates its forms in the same scope; "
